@@ -193,7 +193,7 @@ where
     D::IndexingScheme: Default,
     DataKey<D>: 'static,
     P: Predicate<D> + ToConstraintsTree<DataKey<D>> + std::fmt::Debug + 'static,
-    PT: Pattern<Key = DataKey<D>, Predicate = P> + Clone,
+    PT: Pattern<Key = DataKey<D>, Predicate = P> + Clone + std::fmt::Debug,
     Constraint<DataKey<D>, P>: Eq + Clone + Hash,
 {
     l.arrow();
@@ -230,8 +230,18 @@ where
             });
         });
         out.tok(m.n_patterns());
+        // 0 = None, 1 = Some(the pattern at that input position), 2 = Some(another pattern)
         let gp: Vec<usize> = (0..patterns.len() + 2)
-            .map(|i| m.get_pattern(PatternID(i)).is_some() as usize)
+            .map(|i| match m.get_pattern(PatternID(i)) {
+                None => 0,
+                Some(p) => {
+                    if patterns.get(i).map(|q| format!("{:?}", q)) == Some(format!("{:?}", p)) {
+                        1
+                    } else {
+                        2
+                    }
+                }
+            })
             .collect();
         out.nats(&gp);
         out.tok(m.n_states());
